@@ -185,8 +185,8 @@ impl<K: CacheKey + 'static> MemoryCache<K> {
         self.cleanup_handle = Some(handle);
     }
 
-    /// Check if eviction is needed based on configured limits
-    fn needs_eviction(&self) -> bool {
+    /// Check if room has to be made before a value of `incoming` bytes is inserted
+    fn needs_eviction(&self, incoming: usize) -> bool {
         let current_entries = self.entry_count.load(Ordering::Relaxed);
         let current_memory = self.memory_usage.load(Ordering::Relaxed);
 
@@ -194,24 +194,45 @@ impl<K: CacheKey + 'static> MemoryCache<K> {
             || self
                 .config
                 .max_memory_bytes
-                .is_some_and(|max| current_memory >= max as u64)
+                .is_some_and(|max| current_memory + incoming as u64 > max as u64)
     }
 
-    /// Perform eviction based on configured policy
-    fn perform_eviction(&self) {
-        if !self.needs_eviction() {
+    /// Make room for a value of `incoming` bytes based on configured policy
+    fn perform_eviction(&self, incoming: usize) {
+        if !self.needs_eviction(incoming) {
             return;
         }
 
-        let target_entries = (self.config.max_entries * 90) / 100; // Evict to 90% capacity
+        // Entry limit: evict to 90% capacity
+        let target_entries = (self.config.max_entries * 90) / 100;
         let current_entries = self.entry_count.load(Ordering::Relaxed);
 
-        if current_entries <= target_entries {
-            return;
+        if current_entries >= self.config.max_entries && current_entries > target_entries {
+            self.evict_by_policy(current_entries - target_entries);
         }
 
-        let evict_count = current_entries - target_entries;
+        // Byte limit: the number of entries says nothing about their size, so keep
+        // evicting (a tenth of the entries at a time) until the incoming value fits
+        if let Some(max) = self.config.max_memory_bytes {
+            loop {
+                let entries = self.entry_count.load(Ordering::Relaxed);
+                let memory = self.memory_usage.load(Ordering::Relaxed);
 
+                if entries == 0 || memory + incoming as u64 <= max as u64 {
+                    break;
+                }
+
+                self.evict_by_policy((entries / 10).max(1));
+
+                if self.entry_count.load(Ordering::Relaxed) >= entries {
+                    break; // Nothing left that the policy allows to evict
+                }
+            }
+        }
+    }
+
+    /// Evict `evict_count` entries chosen by the configured policy
+    fn evict_by_policy(&self, evict_count: usize) {
         match &self.config.eviction_policy {
             crate::traits::EvictionPolicy::Lru => self.evict_lru(evict_count),
             crate::traits::EvictionPolicy::Lfu => self.evict_lfu(evict_count),
@@ -434,9 +455,20 @@ impl<K: CacheKey + 'static> AsyncCache<K> for MemoryCache<K> {
         let start_time = Instant::now();
         let size_bytes = value.len();
 
+        // A value larger than the whole byte budget cannot be cached within the limit:
+        // drop what is cached for the key (it is no longer the latest value) and store nothing
+        if self
+            .config
+            .max_memory_bytes
+            .is_some_and(|max| size_bytes > max)
+        {
+            self.remove(&key).await?;
+            return Ok(());
+        }
+
         // Check capacity and evict if necessary
-        if self.needs_eviction() {
-            self.perform_eviction();
+        if self.needs_eviction(size_bytes) {
+            self.perform_eviction(size_bytes);
         }
 
         let entry = Arc::new(MemoryCacheEntryInner::new(value, size_bytes, Some(ttl)));
